@@ -194,11 +194,19 @@ class SpecMixin:
             if name == "map_key0":
                 yield st, _map_entries(st, m)[0][0]
                 return
-            idx = _map_find(self, st, m, args[1])
-            if idx is None:
-                raise SpecError("map_has/map_get on a key the path never touched")
-            k, p, v = _map_entries(st, m)[idx]
-            yield st, (p if name == "map_has" else v)
+            from .models import _map_find_alts
+            saved_exact = self._exact
+            self._exact = True          # aliasing of keys is decided by the solver, also inside specifications
+            try:
+                alts = list(_map_find_alts(self, st, m, args[1]))
+            finally:
+                self._exact = saved_exact
+            for s1, idx in alts:
+                if idx is None:
+                    yield s1, RaiseV(self.exc("SpecUndefined", "map_has/map_get on a key the path never touched"))
+                    continue
+                k, p, v = _map_entries(s1, m)[idx]
+                yield s1, (p if name == "map_has" else v)
             return
         if name == "gcount":
             cur = st.ghost.get("#" + args[0].s)
